@@ -262,15 +262,17 @@ impl<P: TravellingSalespersonProblem> Component<P> for MinMaxPheromoneUpdate {
             .current()
             .iter()
             .skip(1)
-            .min_by_key(|i| i.objective())
-            .unwrap();
+            .min_by_key(|i| i.objective());
 
-        let objective = individual.objective().value();
-        let route = individual.solution();
-        let delta = 1.0 / objective;
-        for (&a, &b) in route.iter().zip(route.iter().skip(1)) {
-            pm[a][b] += delta;
-            pm[b][a] += delta;
+        // Without any sampled ants there is nothing to reinforce
+        if let Some(individual) = individual {
+            let objective = individual.objective().value();
+            let route = individual.solution();
+            let delta = 1.0 / objective;
+            for (&a, &b) in route.iter().zip(route.iter().skip(1)) {
+                pm[a][b] += delta;
+                pm[b][a] += delta;
+            }
         }
 
         // Keep all trails, not only the reinforced ones, within the bounds
